@@ -1,5 +1,6 @@
 from .c14 import C14
 from .c15 import C15
+from .c17 import C17
 from .valueworld import C05, C07, C11, C13
 
-REGISTRY = {"C05": C05, "C07": C07, "C11": C11, "C13": C13, "C14": C14, "C15": C15}
+REGISTRY = {"C05": C05, "C07": C07, "C11": C11, "C13": C13, "C14": C14, "C15": C15, "C17": C17}
